@@ -8,6 +8,8 @@ CONSTANTS
   LoadLocks = TRUE
   SaveLocks = TRUE
   TruncFirst = FALSE
+  StatBeforeLock = FALSE
+  FreshUpdates = FALSE
   Reread = TRUE
   TraceFile = "sf_trace.ndjson"
 INVARIANTS
